@@ -179,8 +179,10 @@ pub fn wdec(ctx: &mut Ctx, plan: DecPlan) {
             }
             for (cls, m) in gen::field_tampers(&rec, &other_key, &other_rec) {
                 judge_input(ctx, cls, &m, nt);
+                // ... and the genuine record straight after EACH refused forgery (state left behind by a
+                // rejection — an unparsable signature, a failed verification — must not leak into the next call)
+                judge_input(ctx, "valid-again", &bytes, nt);
             }
-            judge_input(ctx, "valid-again", &bytes, nt);
         }
         if plan.structural {
             for (cls, m) in gen::structural_mutants(&rec, &mut r) {
